@@ -639,7 +639,8 @@ impl CodegenContext {
                                 .with_labels(vec![value.span.to_label()])
                                 .into());
                         }
-                        let padding = (align - (pc.as_i64() % align)) as usize;
+                        // (nothing when the program counter is aligned already)
+                        let padding = ((align - (pc.as_i64() % align)) % align) as usize;
                         let mut bytes = Vec::new();
                         bytes.resize(padding, 0u8);
                         self.emit(value.span, &bytes)?;
